@@ -41,6 +41,48 @@ class ViolationFound(Exception):
         self.violation = violation
 
 
+class WallClockHang(BaseException):
+    """A single case did not finish within CASE_WALL_LIMIT seconds of wall time (e.g. a self-deadlock on a real lock)."""
+
+
+CASE_WALL_LIMIT = float(os.environ.get("ADVF_CASE_WALL_LIMIT", "90"))
+
+
+def _alarm(signum, frame):
+    raise WallClockHang()
+
+
+def threading_main():
+    import threading
+    return threading.current_thread() is threading.main_thread()
+
+
+def guarded(case_fn):
+    """Wrap case_fn with a per-case wall-clock watchdog (SIGALRM in the shard's main thread; lock waits are interruptible)."""
+    import signal
+
+    state = {"hung": 0}
+
+    def g(case):
+        if state["hung"] >= 3:
+            # three cases already hung in this shard: the verdict is in, do not burn the wall-clock limit on every further case
+            return None, {"classes": ["skipped-after-hangs"]}
+        main = threading_main()
+        if main:
+            old = signal.signal(signal.SIGALRM, _alarm)
+            signal.setitimer(signal.ITIMER_REAL, CASE_WALL_LIMIT)
+        try:
+            return case_fn(case)
+        except WallClockHang:
+            state["hung"] += 1
+            return Violation("operation-hung", "the case did not finish within %.0f s of wall-clock time (deadlock or endless blocking call)" % CASE_WALL_LIMIT), {"classes": ["hung"]}
+        finally:
+            if main:
+                signal.setitimer(signal.ITIMER_REAL, 0)
+                signal.signal(signal.SIGALRM, old)
+    return g
+
+
 class Collector(object):
     MAX_SAMPLES = 5
 
@@ -160,6 +202,7 @@ def hypothesis_part(part, strategy, case_fn, examples, seed, nshards=None, shrin
     warnings.filterwarnings("ignore", category=hypothesis.errors.HypothesisWarning)
     nshards = nshards or NSHARDS
     per = max(1, examples // nshards)
+    case_fn = guarded(case_fn)
 
     def shard_fn(shard):
         col = Collector()
@@ -224,6 +267,7 @@ def enumeration_part(part, items_fn, case_fn, nshards=None, stop_after=3, hash_o
     """Exhaustive enumeration: items_fn(shard, nshards) yields cases; every one is evaluated.
     distinct=True: the enumerated cases are pairwise distinct by construction (no hashing needed)."""
     nshards = nshards or NSHARDS
+    case_fn = guarded(case_fn)
 
     def shard_fn(shard):
         col = Collector()
